@@ -675,8 +675,16 @@ class CFG:
             A new CFG without unary cycles
         """
 
+        _bot = {}
+
         def bot(x):
-            return x if x in acyclic else (x, "bot")
+            if x in acyclic:
+                return x
+            if x not in _bot:
+                # fresh name: (x, "bot") may already be a symbol of this grammar
+                # (e.g. when the input is itself the output of this method)
+                _bot[x] = _gen_nt(f"{x}_bot")
+            return _bot[x]
 
         G = self._unary_graph()
 
